@@ -5720,8 +5720,10 @@ def _fill_rests_within_measure(measure: Measure, part: Part) -> None:
     )
 
     # voc_staff is now transformed to only voice
-    voc_staff = np.array([[n.voice, n.staff] for n in notes])
+    voc_staff = np.array([[n.voice, n.staff] for n in notes]).reshape(-1, 2)
     un_voice, inverse_map = np.unique(voc_staff[:, 0], axis=0, return_inverse=True)
+    # voice for the rests of empty staves (the measure may hold no note at all)
+    new_voice = un_voice.max() + 1 if len(un_voice) > 0 else 1
     # Check if a staff is empty and fill it with rests
     unique_staff = np.unique(voc_staff[:, 1])
     if len(unique_staff) < part.number_of_staves:
@@ -5740,13 +5742,13 @@ def _fill_rests_within_measure(measure: Measure, part: Part) -> None:
                             sd, part._quarter_durations[0]
                         )
                         rest = Rest(
-                            symbolic_duration=sd, staff=staff, voice=un_voice.max() + 1
+                            symbolic_duration=sd, staff=staff, voice=new_voice
                         )
                         part.add(rest, st, et)
                         st = et
                 else:
                     rest = Rest(
-                        symbolic_duration=sym_dur, staff=staff, voice=un_voice.max() + 1
+                        symbolic_duration=sym_dur, staff=staff, voice=new_voice
                     )
                     part.add(rest, start_time, end_time)
     # Now we fill the rests for each voice
